@@ -138,7 +138,8 @@ func mergeableCheck(fn *ssa.Function) bool {
 		for _, ins := range b.Instrs {
 			switch x := ins.(type) {
 			case *ssa.DebugRef, *ssa.Phi, *ssa.Jump, *ssa.Return, *ssa.BinOp, *ssa.Convert, *ssa.ChangeType,
-				*ssa.Extract, *ssa.Index, *ssa.Lookup, *ssa.Slice, *ssa.Field, *ssa.FieldAddr, *ssa.IndexAddr:
+				*ssa.Extract, *ssa.Index, *ssa.Lookup, *ssa.Slice, *ssa.Field, *ssa.FieldAddr, *ssa.IndexAddr, *ssa.MakeSlice:
+				// (MakeSlice + append: a local buffer that is only extended, never stored into)
 				if l, ok := x.(*ssa.Lookup); ok {
 					if _, isMap := l.X.Type().Underlying().(*types.Map); isMap {
 						return false
@@ -164,7 +165,7 @@ func mergeableCheck(fn *ssa.Function) bool {
 				}
 				switch c := x.Call.Value.(type) {
 				case *ssa.Builtin:
-					if c.Name() != "len" && c.Name() != "cap" {
+					if c.Name() != "len" && c.Name() != "cap" && c.Name() != "append" {
 						return false
 					}
 				case *ssa.Function:
@@ -654,6 +655,9 @@ func (m *Machine) mergeAtLoopHeader(fr *frame, b, prev *ssa.BasicBlock) (Value, 
 			if it, isIt := v.(*mapIter); isIt {
 				cp := *it
 				v = &cp
+			}
+			if sl, isSl := v.(Slice); isSl && sl != nil {
+				v = append(make(Slice, 0, len(sl)), sl...) // no backing array shared between continuation runs
 			}
 			frc.locals[k] = v
 		}
